@@ -15,6 +15,7 @@ CONTRACTS = {
         params={"values": DICT(STR, ANY), "input_kwargs": DICT(STR, ANY)},
         returns=DICT(STR, ANY),
         ensures=[UNION, "result is not values and result is not input_kwargs"],
+        fresh=["result"],  # a new mapping: never one the caller already holds
         raises={"ValueError": "any(k in input_kwargs for k in values)"},
         modifies=[],
         mustfail="result is values",
